@@ -451,3 +451,483 @@ Proof.
   - intros [Hin E]. split; auto. intros t Ht. rewrite E. auto.
   - intros [Hin Hmin]. split; auto. destruct Hex as [t [Ht E]]. specialize (Hmin t Ht). specialize (Hall s Hin). lia.
 Qed.
+
+(* ================================================================== 4. the moralisation criterion (Prop level) *)
+(* DESIGN.md Appendix B.1.  E = arrows of the graph with the exposure's out-arrows removed.  Conn x y =
+   connectivity in the moral graph of the ancestral set of {x,y} + Z after deleting Z (what the algorithm
+   tests); reach = active walks (the d-connection specification).  The two classical case splits of the
+   sketch are hypotheses here (decidability of Z and of "is an ancestor of Z"); the executable layer
+   discharges both, so the final theorems use no axiom. *)
+Section Moral.
+Variable V : Type.
+Variable E : V -> V -> Prop.
+Variable Z : V -> Prop.
+Variables x y : V.
+Hypothesis xZ : ~ Z x.
+Hypothesis yZ : ~ Z y.
+
+Definition Anc (S : V -> Prop) (v : V) : Prop := exists t, S t /\ clos_refl_trans V E v t.
+Definition XYZ (t : V) : Prop := t = x \/ t = y \/ Z t.
+Definition A := Anc XYZ.
+Definition AnZ' := Anc Z.
+Hypothesis Zdec : forall v, Z v \/ ~ Z v.
+Hypothesis AnZdec : forall v, AnZ' v \/ ~ AnZ' v.
+
+Definition M (u v : V) : Prop :=
+  A u /\ A v /\ (E u v \/ E v u \/ exists c, A c /\ E u c /\ E v c).
+Definition MZ (u v : V) : Prop := M u v /\ ~ Z u /\ ~ Z v.
+Definition Conn := clos_refl_trans V MZ.
+
+Inductive reach : V -> bool -> Prop :=
+| r_start : reach x true
+| r_up_parent v p : reach v true -> ~ Z v -> E p v -> reach p true
+| r_up_child v c : reach v true -> ~ Z v -> E v c -> reach c false
+| r_down_child v c : reach v false -> ~ Z v -> E v c -> reach c false
+| r_down_parent v p : reach v false -> AnZ' v -> E p v -> reach p true.
+
+Lemma A_parent u v : E u v -> A v -> A u.
+Proof. intros He [t [Ht Hp]]. exists t; split; auto. eapply rt_trans; [apply rt_step; exact He| exact Hp]. Qed.
+Lemma AnZ_A v : AnZ' v -> A v.
+Proof. intros [t [Ht Hp]]. exists t; split; auto. right; right; exact Ht. Qed.
+Lemma A_x : A x. Proof. exists x; split; [left; reflexivity| apply rt_refl]. Qed.
+Lemma A_y : A y. Proof. exists y; split; [right; left; reflexivity| apply rt_refl]. Qed.
+
+Inductive chain (p : V) : V -> Prop :=
+| ch_one v : ~ Z p -> E p v -> chain p v
+| ch_step u v : chain p u -> ~ Z u -> E u v -> chain p v.
+
+Lemma chain_conn p v : chain p v -> A v -> Conn x p ->
+  (~ Z v -> Conn x v) /\ (exists u, E u v /\ ~ Z u /\ A u /\ Conn x u).
+Proof.
+  induction 1 as [v Hp He | u v Hc IH Hu He]; intros Av Cp.
+  - assert (Ap : A p) by (eapply A_parent; eauto).
+    split.
+    + intros Hv. eapply rt_trans; [exact Cp|]. apply rt_step. repeat split; auto.
+    + exists p; repeat split; auto.
+  - assert (Au : A u) by (eapply A_parent; eauto).
+    destruct (IH Au Cp) as [Cu _]. specialize (Cu Hu).
+    split.
+    + intros Hv. eapply rt_trans; [exact Cu|]. apply rt_step. repeat split; auto.
+    + exists u; repeat split; auto.
+Qed.
+
+Definition RInv (v : V) (d : bool) : Prop :=
+  if d then A v /\ (~ Z v -> Conn x v)
+  else exists p, ~ Z p /\ A p /\ Conn x p /\ chain p v.
+
+Lemma reach_inv v d : reach v d -> RInv v d.
+Proof.
+  induction 1 as [ | v p Hr IH Hv He | v c Hr IH Hv He | v c Hr IH Hv He | v p Hr IH Hv He ]; simpl in *.
+  - split; [apply A_x| intros _; apply rt_refl].
+  - destruct IH as [Av Cv]. assert (Ap : A p) by (eapply A_parent; eauto). split; auto.
+    intros Hp. eapply rt_trans; [apply Cv; auto|]. apply rt_step. repeat split; auto.
+  - destruct IH as [Av Cv]. exists v; repeat split; auto. apply ch_one; auto.
+  - destruct IH as [p0 [Hp0 [Ap0 [Cp0 Hch]]]]. exists p0; repeat split; auto. eapply ch_step; eauto.
+  - destruct IH as [p0 [Hp0 [Ap0 [Cp0 Hch]]]].
+    assert (Av : A v) by (apply AnZ_A; auto).
+    assert (Ap : A p) by (eapply A_parent; eauto).
+    split; auto. intros Hp.
+    destruct (chain_conn Hch Av Cp0) as [Cv [u [Heu [Hu [Au Cu]]]]].
+    destruct (Zdec v) as [Zv | nZv].
+    + eapply rt_trans; [exact Cu|]. apply rt_step. repeat split; auto.
+      right; right. exists v; repeat split; auto.
+    + eapply rt_trans; [apply Cv; auto|]. apply rt_step. repeat split; auto.
+Qed.
+
+Theorem moral_sound : (exists d, reach y d) -> Conn x y.
+Proof.
+  intros [d Hr]. apply reach_inv in Hr. destruct d; simpl in Hr.
+  - destruct Hr as [_ H]; auto.
+  - destruct Hr as [p [Hp [Ap [Cp Hch]]]]. destruct (chain_conn Hch A_y Cp) as [H _]; auto.
+Qed.
+
+Definition Done := exists d, reach y d.
+
+Lemma descend v t : clos_refl_trans V E v t -> forall d, reach v d -> ~ AnZ' v -> (v = t \/ reach t false).
+Proof.
+  intros Hp. apply clos_rt_rt1n in Hp. induction Hp as [v | v w t Hvw Hwt IH]; intros d Hr Hn.
+  - left; reflexivity.
+  - assert (Hv : ~ Z v). { intros Hz. apply Hn. exists v; split; auto. apply rt_refl. }
+    assert (Hw : reach w false) by (destruct d; [eapply r_up_child| eapply r_down_child]; eauto).
+    assert (Hnw : ~ AnZ' w). { intros [z [Hz Hq]]. apply Hn. exists z; split; auto.
+      eapply rt_trans; [apply rt_step; exact Hvw| exact Hq]. }
+    right. destruct (IH false Hw Hnw) as [<- | H]; auto.
+Qed.
+
+Lemma climb c : clos_refl_trans V E c x -> ~ AnZ' c -> reach c true.
+Proof.
+  intros Hp Hn. apply clos_rt_rtn1 in Hp.
+  assert (G : forall u, clos_refl_trans V E c u -> clos_refl_trans V E u x -> reach u true -> reach c true).
+  { intros u Hcu. apply clos_rt_rtn1 in Hcu. induction Hcu as [ | u w Huw Hcu IH]; intros Hux Hr; auto.
+    apply IH.
+    - eapply rt_trans; [apply rt_step; exact Huw| exact Hux].
+    - eapply r_up_parent; [exact Hr| | exact Huw].
+      intros Hz. apply Hn. exists w; split; auto.
+      eapply rt_trans; [apply clos_rtn1_rt; exact Hcu| apply rt_step; exact Huw]. }
+  apply (G x); [apply clos_rtn1_rt; exact Hp | apply rt_refl | apply r_start].
+Qed.
+
+Lemma A_cases c : A c -> ~ AnZ' c -> clos_refl_trans V E c x \/ clos_refl_trans V E c y.
+Proof. intros [t [[->| [->|Hz]] Hp]] Hn; auto. exfalso; apply Hn; exists t; auto. Qed.
+
+Definition Good (v : V) := exists d, reach v d.
+
+Lemma step_complete v w : Good v -> MZ v w -> Good w \/ Done.
+Proof.
+  intros [d Hr] [[Av [Aw Hadj]] [Hv Hw]].
+  destruct Hadj as [Hvw | [Hwv | [c [Ac [Hvc Hwc]]]]].
+  - left. exists false. destruct d; [eapply r_up_child| eapply r_down_child]; eauto.
+  - destruct d.
+    + left; exists true; eapply r_up_parent; eauto.
+    + destruct (AnZdec v) as [Hz | Hn].
+      * left; exists true; eapply r_down_parent; eauto.
+      * destruct (A_cases Av Hn) as [Hx | Hy].
+        -- left; exists true. eapply r_up_parent; [apply climb; eauto| auto | exact Hwv].
+        -- right. destruct (descend Hy Hr Hn) as [-> | H]; [exists false; exact Hr| exists false; exact H].
+  - assert (Hc : reach c false) by (destruct d; [eapply r_up_child| eapply r_down_child]; eauto).
+    destruct (AnZdec c) as [Hz | Hn].
+    + left; exists true; eapply r_down_parent; eauto.
+    + assert (HcZ : ~ Z c). { intros Hz. apply Hn. exists c; split; auto. apply rt_refl. }
+      destruct (A_cases Ac Hn) as [Hx | Hy].
+      * left; exists true. eapply r_up_parent; [apply climb; eauto| auto | exact Hwc].
+      * right. destruct (descend Hy Hc Hn) as [-> | H]; [exists false; exact Hc| exists false; exact H].
+Qed.
+
+Theorem moral_complete : Conn x y -> Done.
+Proof.
+  intros Hc.
+  assert (G : forall v, Conn x v -> Good v \/ Done).
+  { intros v Hv. apply clos_rt_rtn1 in Hv. induction Hv as [ | v w Hvw Hxv IH].
+    - left; exists true; apply r_start.
+    - destruct IH as [Hg | Hd]; [| right; exact Hd]. eapply step_complete; eauto. }
+  destruct (G y Hc) as [Hg | Hd]; auto.
+Qed.
+
+Theorem moralisation_criterion : Conn x y <-> Done.
+Proof. split; [apply moral_complete | apply moral_sound]. Qed.
+End Moral.
+
+Unset Implicit Arguments.
+
+(* ================================================================== 5. refinement *)
+Section Refine.
+Variable g : graph.
+Variables x y : nat.
+Variable Zl : list nat.
+Hypothesis Hwf : wf g.
+Hypothesis Hx : In x (nodes g).
+Hypothesis Hy : In y (nodes g).
+Hypothesis HxZ : ~ In x Zl.
+Hypothesis HyZ : ~ In y Zl.
+
+Local Notation ns := (nodes g).
+Local Notation es := (edges g).
+Local Notation E := (EdgeH g x).
+Local Notation Zp := (fun v : nat => In v Zl).
+Local Notation R := (reach_tbl (nodes g) (edges g)).
+Local Notation RH := (reach_tbl (nodes g) (drop_out x (edges g))).
+Local Notation AA := (A E Zp x y).
+Local Notation keep := (keep_nodes R ns (x :: y :: Zl)).
+Local Notation es2 := (drop_out x (sub_edges keep es)).
+Local Notation mes := (es2 ++ marriages es2 keep).
+Local Notation UU := (filter (fun v => negb (mem v Zl)) keep).
+
+Lemma E_nodes u v : E u v -> In u ns /\ In v ns.
+Proof. intros [H _]. apply (Hwf _ _ H). Qed.
+
+Lemma RH_spec u v : In v (RH u) <-> clos_trans nat E u v.
+Proof.
+  rewrite reach_tbl_spec. split; apply ct_mono; intros p q H.
+  - destruct H as [_ H]. apply drop_out_In in H. exact H.
+  - split; [apply (E_nodes _ _ H) | apply drop_out_In; exact H].
+Qed.
+
+Definition anzb (v : nat) : bool := existsb (fun z => (v =? z) || mem z (RH v)) Zl.
+
+Lemma anzb_spec v : anzb v = true <-> AnZ g x Zl v.
+Proof.
+  unfold anzb, AnZ. rewrite existsb_exists. split; intros [z [Hz H]]; exists z; split; auto.
+  - apply orb_true_iff in H. destruct H as [H | H].
+    + apply Nat.eqb_eq in H. subst. apply rt_refl.
+    + apply mem_In, RH_spec in H. apply ct_rt; auto.
+  - apply orb_true_iff. destruct (clos_rt_t_or H) as [-> | Hc].
+    + left. apply Nat.eqb_refl.
+    + right. apply mem_In, RH_spec. exact Hc.
+Qed.
+
+Lemma Zdec v : Zp v \/ ~ Zp v.
+Proof. destruct (in_dec Nat.eq_dec v Zl); auto. Qed.
+
+Lemma AnZdec v : AnZ' E Zp v \/ ~ AnZ' E Zp v.
+Proof.
+  destruct (anzb v) eqn:Eb.
+  - left. apply anzb_spec in Eb. exact Eb.
+  - right. intros H. apply anzb_spec in H. congruence.
+Qed.
+
+Lemma step1_spec : existsb (fun z => mem z (R x)) Zl = false <-> (forall z, In z Zl -> ~ Desc g x z).
+Proof.
+  split.
+  - intros H z Hz Hd. apply (reach_tbl_wf x z Hwf), mem_In in Hd.
+    assert (Ht : existsb (fun z => mem z (R x)) Zl = true) by (apply existsb_exists; exists z; auto).
+    congruence.
+  - intros H. destruct (existsb (fun z => mem z (R x)) Zl) eqn:Eb; auto.
+    apply existsb_exists in Eb. destruct Eb as [z [Hz Hm]]. apply mem_In, (reach_tbl_wf x z Hwf) in Hm.
+    exfalso. exact (H z Hz Hm).
+Qed.
+
+(* ancestors of {x,y}+Z in the original graph = in the graph without x's out-arrows (because x itself is in the set) *)
+Lemma AG_AH v t : XYZ Zp x y t -> clos_refl_trans nat (Edge g) v t -> AA v.
+Proof.
+  intros Ht Hp. apply clos_rt_rt1n in Hp. induction Hp as [v | v w t Hvw Hwt IH].
+  - exists v. split; [exact Ht | apply rt_refl].
+  - destruct (Nat.eq_dec v x) as [-> | Hn].
+    + exists x. split; [left; reflexivity | apply rt_refl].
+    + apply (A_parent (E:=E)) with w; [split; auto | apply IH; exact Ht].
+Qed.
+
+Lemma AH_AG v : AA v -> exists t, XYZ Zp x y t /\ clos_refl_trans nat (Edge g) v t.
+Proof.
+  intros [t [Ht Hp]]. exists t. split; auto. clear Ht.
+  induction Hp; [apply rt_step; destruct H; auto | apply rt_refl | eapply rt_trans; eauto].
+Qed.
+
+Lemma XYZ_list t : XYZ Zp x y t <-> In t (x :: y :: Zl).
+Proof. unfold XYZ. simpl. intuition. Qed.
+
+Lemma keep_spec v : In v keep <-> In v ns /\ AA v.
+Proof.
+  unfold keep_nodes. rewrite filter_In. split; intros [Hv H]; split; auto.
+  - apply orb_true_iff in H. destruct H as [H | H].
+    + apply mem_In, XYZ_list in H. exists v. split; [exact H | apply rt_refl].
+    + apply existsb_exists in H. destruct H as [t [Ht Hm]]. apply XYZ_list in Ht.
+      apply mem_In, (reach_tbl_wf v t Hwf) in Hm. apply AG_AH with t; auto. apply ct_rt; exact Hm.
+  - apply AH_AG in H. destruct H as [t [Ht Hp]]. apply XYZ_list in Ht. apply orb_true_iff.
+    destruct (clos_rt_t_or Hp) as [-> | Hc].
+    + left. apply mem_In; exact Ht.
+    + right. apply existsb_exists. exists t. split; auto. apply mem_In, (reach_tbl_wf v t Hwf). exact Hc.
+Qed.
+
+Lemma es2_spec u v : In (u, v) es2 <-> E u v /\ AA u /\ AA v.
+Proof.
+  rewrite drop_out_In. unfold sub_edges. rewrite filter_In. cbn [fst snd].
+  rewrite andb_true_iff, !mem_In, !keep_spec. split.
+  - intros [[He [[_ Au] [_ Av]]] Hn]. split; [split; auto | auto].
+  - intros [He [Au Av]]. destruct (E_nodes _ _ He) as [Hu Hv]. destruct He as [He Hn]. tauto.
+Qed.
+
+Lemma marriages_l a b : In (a, b) (marriages es2 keep) -> exists c, AA c /\ E a c /\ E b c /\ AA a /\ AA b.
+Proof.
+  unfold marriages. rewrite in_flat_map. intros [c [Hc Hp]]. apply pairs_In_l in Hp.
+  destruct Hp as [Ha Hb]. apply preds_In, es2_spec in Ha. apply preds_In, es2_spec in Hb.
+  exists c. tauto.
+Qed.
+
+Lemma marriages_r a b c : AA c -> E a c -> E b c -> a <> b ->
+  In (a, b) (marriages es2 keep) \/ In (b, a) (marriages es2 keep).
+Proof.
+  intros Ac Ea Eb Hn.
+  assert (Aa : AA a) by (eapply A_parent; eauto).
+  assert (Ab : AA b) by (eapply A_parent; eauto).
+  assert (Hc : In c keep) by (apply keep_spec; split; auto; apply (E_nodes _ _ Ea)).
+  assert (Ha : In a (preds es2 c)) by (apply preds_In, es2_spec; tauto).
+  assert (Hb : In b (preds es2 c)) by (apply preds_In, es2_spec; tauto).
+  unfold marriages. rewrite !in_flat_map.
+  destruct (@pairs_In_r _ _ _ _ Ha Hb Hn); [left | right]; exists c; auto.
+Qed.
+
+Lemma uadj_spec l u v : uadj l u v = true <-> In (u, v) l \/ In (v, u) l.
+Proof. unfold uadj. rewrite orb_true_iff, !has_edge_In. tauto. Qed.
+
+Lemma uadj_M u v : uadj mes u v = true -> M E Zp x y u v.
+Proof.
+  rewrite uadj_spec, !in_app_iff. intros [[H | H] | [H | H]].
+  - apply es2_spec in H. unfold M. tauto.
+  - apply marriages_l in H. destruct H as [c H]. unfold M. split; [tauto|]. split; [tauto|]. right; right. exists c. tauto.
+  - apply es2_spec in H. unfold M. tauto.
+  - apply marriages_l in H. destruct H as [c H]. unfold M. split; [tauto|]. split; [tauto|]. right; right. exists c. tauto.
+Qed.
+
+Lemma M_uadj u v : M E Zp x y u v -> u = v \/ uadj mes u v = true.
+Proof.
+  intros [Au [Av H]]. rewrite uadj_spec, !in_app_iff. destruct H as [H | [H | [c [Ac [H1 H2]]]]].
+  - right. left. left. apply es2_spec. tauto.
+  - right. right. left. apply es2_spec. tauto.
+  - destruct (Nat.eq_dec u v) as [-> | Hn]; [left; reflexivity | right].
+    destruct (marriages_r u v c Ac H1 H2 Hn); tauto.
+Qed.
+
+Lemma UU_spec v : In v UU <-> In v ns /\ AA v /\ ~ In v Zl.
+Proof. rewrite filter_In, keep_spec, negb_true_iff, mem_false. tauto. Qed.
+
+Lemma A_nodes v : AA v -> ~ In v Zl -> v = x \/ v = y \/ exists w, E v w.
+Proof.
+  intros [t [Ht Hp]] Hn. apply clos_rt_rt1n in Hp. destruct Hp as [| w t Hvw _].
+  - destruct Ht as [-> | [-> | Hz]]; auto. contradiction.
+  - right. right. exists w. exact Hvw.
+Qed.
+
+Lemma A_in_ns v : AA v -> ~ In v Zl -> In v ns.
+Proof.
+  intros Av Hn. destruct (A_nodes v Av Hn) as [-> | [-> | [w Hw]]]; auto. apply (E_nodes _ _ Hw).
+Qed.
+
+(* Steps 4-6 decide connectivity in the moral ancestral graph minus Z *)
+Lemma conn_spec : connected UU (uadj mes) x y = true <-> Conn E Zp x y x y.
+Proof.
+  unfold connected. rewrite orb_true_iff, Nat.eqb_eq, mem_In, (@tc_spec nat Nat.eqb nat_eqb_spec).
+  set (S := S0 UU (fun u => filter (uadj mes u) UU)).
+  assert (S_MZ : forall a b, S a b -> MZ E Zp x y a b).
+  { intros a b [Ha Hb]. apply filter_In in Hb. destruct Hb as [Hb Hab].
+    apply UU_spec in Ha. apply UU_spec in Hb. split; [apply uadj_M; exact Hab | tauto]. }
+  assert (MZ_S : forall a b, MZ E Zp x y a b -> a = b \/ S a b).
+  { intros a b [HM [Ha Hb]]. destruct (M_uadj a b HM) as [-> | Hab]; [left; reflexivity | right].
+    destruct HM as [Aa [Ab _]].
+    assert (In a UU) by (apply UU_spec; repeat split; auto; apply A_in_ns; auto).
+    assert (In b UU) by (apply UU_spec; repeat split; auto; apply A_in_ns; auto).
+    split; auto. apply filter_In. split; auto. }
+  assert (G1 : forall a b, clos_trans nat S a b -> clos_refl_trans nat (MZ E Zp x y) a b).
+  { intros a b H. induction H; [apply rt_step; auto | eapply rt_trans; eauto]. }
+  assert (G2 : forall a b, clos_refl_trans nat (MZ E Zp x y) a b -> a = b \/ clos_trans nat S a b).
+  { intros a b H. apply clos_rt_rtn1 in H. induction H as [| b c Hbc _ IH]; [left; reflexivity|].
+    destruct (MZ_S _ _ Hbc) as [<- | Hs]; [exact IH|]. right.
+    destruct IH as [<- | IH]; [apply t_step; exact Hs | eapply t_trans; [exact IH | apply t_step; exact Hs]]. }
+  unfold Conn. split.
+  - intros [Heq | H]; [rewrite Heq; apply rt_refl | apply G1; exact H].
+  - apply G2.
+Qed.
+
+Lemma valid_alg_reflect :
+  valid_alg g x y Zl = true <-> (forall z, In z Zl -> ~ Desc g x z) /\ ~ Conn E Zp x y x y.
+Proof.
+  unfold valid_alg, valid_core. cbv zeta.
+  destruct (existsb (fun z => mem z (R x)) Zl) eqn:Eb.
+  - split; [discriminate|]. intros [H _]. apply (proj2 step1_spec) in H. congruence.
+  - pose proof (proj1 step1_spec Eb) as Hd. clear Eb. rewrite negb_true_iff. rewrite <- conn_spec.
+    destruct (connected UU (uadj mes) x y); split; try tauto; try congruence.
+    intros _. split; [exact Hd | discriminate].
+Qed.
+
+(* the walk relation of the specification is the `reach` of the criterion *)
+Lemma walk_reach v d : walk g x Zl v d <-> reach E Zp x v d.
+Proof.
+  split; intros H; induction H.
+  - apply r_start.
+  - eapply r_up_parent; eauto.
+  - eapply r_up_child; eauto.
+  - eapply r_down_child; eauto.
+  - eapply r_down_parent; eauto.
+  - apply w_start.
+  - eapply w_up_parent; eauto.
+  - eapply w_up_child; eauto.
+  - eapply w_down_child; eauto.
+  - eapply w_down_parent; eauto.
+Qed.
+
+Lemma dconn_Conn : dconn g x y Zl <-> Conn E Zp x y x y.
+Proof.
+  rewrite (@moralisation_criterion nat E Zp x y HyZ Zdec AnZdec).
+  unfold dconn, Done. split; intros [d H]; exists d; apply walk_reach; exact H.
+Qed.
+
+Theorem valid_alg_iff_spec : valid_alg g x y Zl = true <-> valid_spec g x y Zl.
+Proof. rewrite valid_alg_reflect. unfold valid_spec. rewrite dconn_Conn. tauto. Qed.
+(* ---- the executable specification (closure over walk states) reflects the active-walk specification *)
+Lemma st_eqb_spec (a b : st) : st_eqb a b = true <-> a = b.
+Proof.
+  destruct a as [a1 a2], b as [b1 b2]. unfold st_eqb. cbn [fst snd].
+  rewrite andb_true_iff, Nat.eqb_eq, eqb_true_iff. split; [intros [-> ->]; reflexivity | intros H; inversion H; auto].
+Qed.
+
+Lemma states_In v d : In (v, d) (states ns) <-> In v ns.
+Proof.
+  unfold states. rewrite in_flat_map. split.
+  - intros [w [Hw H]]. simpl in H. destruct H as [H | [H | []]]; inversion H; subst; auto.
+  - intros H. exists v. split; auto. destruct d; simpl; auto.
+Qed.
+
+Local Notation eH := (drop_out x es).
+Local Notation WS := (S0 (states ns) (walk_succ eH Zl anzb)).
+
+Lemma eH_E u v : In (u, v) eH <-> E u v.
+Proof. rewrite drop_out_In. unfold EdgeH. tauto. Qed.
+
+Lemma step_walk v d w d' : walk g x Zl v d -> In (w, d') (walk_succ eH Zl anzb (v, d)) -> walk g x Zl w d'.
+Proof.
+  intros Hw H. unfold walk_succ in H. destruct d.
+  - destruct (mem v Zl) eqn:Ez; [destruct H|]. apply mem_false in Ez.
+    apply in_app_or in H. destruct H as [H | H]; apply in_map_iff in H; destruct H as [u [Hu Hin]]; inversion Hu; subst.
+    + apply preds_In, eH_E in Hin. eapply w_up_parent; eauto.
+    + apply succs_In, eH_E in Hin. eapply w_up_child; eauto.
+  - apply in_app_or in H. destruct H as [H | H].
+    + destruct (mem v Zl) eqn:Ez; [destruct H|]. apply mem_false in Ez.
+      apply in_map_iff in H; destruct H as [u [Hu Hin]]; inversion Hu; subst.
+      apply succs_In, eH_E in Hin. eapply w_down_child; eauto.
+    + destruct (anzb v) eqn:Ea; [|destruct H]. apply anzb_spec in Ea.
+      apply in_map_iff in H; destruct H as [u [Hu Hin]]; inversion Hu; subst.
+      apply preds_In, eH_E in Hin. eapply w_down_parent; eauto.
+Qed.
+
+Lemma WS_up_parent v p : ~ In v Zl -> E p v -> WS (v, true) (p, true).
+Proof.
+  intros Hz He. split; [apply states_In, (E_nodes _ _ He)|]. unfold walk_succ.
+  apply mem_false in Hz. rewrite Hz. apply in_or_app. left. apply in_map_iff. exists p. split; auto.
+  apply preds_In, eH_E; auto.
+Qed.
+Lemma WS_up_child v c : ~ In v Zl -> E v c -> WS (v, true) (c, false).
+Proof.
+  intros Hz He. split; [apply states_In, (E_nodes _ _ He)|]. unfold walk_succ.
+  apply mem_false in Hz. rewrite Hz. apply in_or_app. right. apply in_map_iff. exists c. split; auto.
+  apply succs_In, eH_E; auto.
+Qed.
+Lemma WS_down_child v c : ~ In v Zl -> E v c -> WS (v, false) (c, false).
+Proof.
+  intros Hz He. split; [apply states_In, (E_nodes _ _ He)|]. unfold walk_succ.
+  apply mem_false in Hz. rewrite Hz. apply in_or_app. left. apply in_map_iff. exists c. split; auto.
+  apply succs_In, eH_E; auto.
+Qed.
+Lemma WS_down_parent v p : AnZ g x Zl v -> E p v -> WS (v, false) (p, true).
+Proof.
+  intros Ha He. split; [apply states_In, (E_nodes _ _ He)|]. unfold walk_succ.
+  apply anzb_spec in Ha. rewrite Ha. apply in_or_app. right. apply in_map_iff. exists p. split; auto.
+  apply preds_In, eH_E; auto.
+Qed.
+
+Lemma walk_clos v d : walk g x Zl v d -> (v, d) = (x, true) \/ clos_trans st WS (x, true) (v, d).
+Proof.
+  assert (G : forall s t, (s = (x, true) \/ clos_trans st WS (x, true) s) -> WS s t -> clos_trans st WS (x, true) t).
+  { intros s t [-> | H] Hs; [apply t_step; auto | eapply t_trans; [exact H | apply t_step; exact Hs]]. }
+  intros H. induction H; [left; reflexivity | right ..].
+  - eapply G; [exact IHwalk | apply WS_up_parent; auto].
+  - eapply G; [exact IHwalk | apply WS_up_child; auto].
+  - eapply G; [exact IHwalk | apply WS_down_child; auto].
+  - eapply G; [exact IHwalk | apply WS_down_parent; auto].
+Qed.
+
+Lemma clos_walk s : clos_trans st WS (x, true) s -> walk g x Zl (fst s) (snd s).
+Proof.
+  intros H. apply clos_trans_tn1 in H. induction H as [s [_ H] | s t [_ H] _ IH].
+  - destruct s as [w d']. eapply step_walk; [apply w_start | exact H].
+  - destruct s as [v d], t as [w d']. cbn [fst snd] in *. eapply step_walk; eauto.
+Qed.
+
+Lemma dconnb_spec : dconnb_core RH ns eH x y Zl = true <-> dconn g x y Zl.
+Proof.
+  unfold dconnb_core. cbv zeta. fold anzb.
+  rewrite !orb_true_iff, Nat.eqb_eq, !(@memb_In st st_eqb st_eqb_spec), !(@tc_spec st st_eqb st_eqb_spec).
+  unfold dconn. split.
+  - intros [[Heq | H] | H].
+    + exists true. rewrite <- Heq. apply w_start.
+    + exists true. apply (clos_walk _ H).
+    + exists false. apply (clos_walk _ H).
+  - intros [d H]. apply walk_clos in H. destruct H as [H | H].
+    + left. left. inversion H; reflexivity.
+    + destruct d; [left; right | right]; exact H.
+Qed.
+
+Theorem valid_specb_reflect : valid_specb g x y Zl = true <-> valid_spec g x y Zl.
+Proof.
+  unfold valid_specb, valid_spec_core, valid_spec. rewrite andb_true_iff, !negb_true_iff.
+  rewrite step1_spec. rewrite <- dconnb_spec. destruct (dconnb_core RH ns eH x y Zl); intuition congruence.
+Qed.
+End Refine.
